@@ -1478,6 +1478,18 @@ class Interp:
                 new.append(fill.copy() if isinstance(fill, Vec) else fill)
             obj.set_elems(new)
             return None
+        if name == "assign":
+            real_args = [a for a in args if a.get("kind") != "CXXDefaultArgExpr"]
+            if len(real_args) != 2:
+                raise Unsupported("vector::assign with %d arguments at %s" % (len(real_args), self.where(n)))
+            nn = self.val(real_args[0])
+            if is_sym(nn):
+                raise Unsupported("assign with symbolic size at " + self.where(n))
+            fill = self.val(real_args[1])
+            if obj.et == "double" and isinstance(fill, int) and not isinstance(fill, bool):
+                fill = Fraction(fill)
+            obj.set_elems([fill.copy() if isinstance(fill, Vec) else fill for _ in range(int(nn))])
+            return None
         if name in ("at",):
             return ElemRef(obj, self.val(args[0]), self, n)
         if name == "back":
@@ -1518,6 +1530,11 @@ class Interp:
         name = d["name"]
         args = [a for a in n["inner"][1:] if a.get("kind") != "CXXDefaultArgExpr"]
         fd = self.P.by_id.get(d["id"])
+        if (fd is None or not any(c.get("kind") == "CompoundStmt" for c in fd.get("inner", []))) and name in self.P.funcs:
+            # the call names a forward declaration: use the definition of that function
+            cands = [f for f in self.P.funcs[name] if any(c.get("kind") == "CompoundStmt" for c in f.get("inner", []))]
+            if len(cands) == 1:
+                fd = cands[0]
         if fd is not None and any(c.get("kind") == "CompoundStmt" for c in fd.get("inner", [])):
             argv = [self.rvalue(a) for a in args]
             if name in self.summarise:
